@@ -45,7 +45,7 @@ class _HMixin:
         if x is None:
             self.sh.log("item_none", wid=self.wid)
             return None
-        if not isinstance(x, (tuple, list)):
+        if not (isinstance(x, (tuple, list)) and len(x) >= 3 and isinstance(x[0], int) and isinstance(x[2], (int, float))):
             # a piece of a data item (the item was a list and has been taken apart)
             self.sh.log("item_torn", wid=self.wid)
             return ("torn", repr(x)[:40])
